@@ -16,7 +16,7 @@ class C01(rowgen.RowGenProp):
                   "and sampled above, random generators with random call/reset histories; non-trivial = at least two "
                   "rows produced without error; distinct by request hash. Bot level: sessions of the real Bot/Tower (stub "
                   "rhythm) with towers larger than the stage, custom start rows shorter / equal / longer than the "
-                  "stage, Go / Bob / Single / That's all histories; oracle: every N consecutive strikes are the N bells")
+                  "stage, Go / Bob / Single / That's all histories; oracle: server-mode sessions of several touches with a method of another stage selected in between; oracle: every N consecutive strikes are the N bells")
 
     def cases(self, rng, tier):
         ex = 10 if tier == "quick" else 16
